@@ -27,6 +27,31 @@ abbrev GHist := List (TxCmd × Bool)
 /-- the commands that were enabled when issued, in order -/
 def accepted (h : GHist) : List TxCmd := (h.filter fun cd => !cd.2).map (·.1)
 
+/-! ### one transaction over several backends (`cashews/wrapper/transaction.py`, class `Transaction`)
+
+A cache may route its keys by prefix to several backends; the `Transaction` object of a block holds one
+`TransactionBackend` per backend a command of the block has touched (`wrap`: created at the first command - a read is
+enough - routed to that backend), and ends all of them:
+
+    async def commit(self):
+        backends = list(self._backends.values())
+        while backends:
+            await backends.pop(0).commit()          # (a failing commit rolls the remaining ones back: C16)
+
+    async def rollback(self): ... every backend's rollback
+
+A key lives on exactly one backend, so the transaction states of the backends are independent of each other. -/
+
+/-- `Transaction.commit`: every touched backend is committed, in the order in which they were touched -/
+def commitAll : List TxSt → List TxSt
+  | [] => []
+  | st :: rest => st.commit :: commitAll rest
+
+/-- `Transaction.rollback` -/
+def rollbackAll : List TxSt → List TxSt
+  | [] => []
+  | st :: rest => st.rollback :: rollbackAll rest
+
 namespace TxSt
 
 /-- one command through the middleware, inside a transaction -/
